@@ -1,5 +1,5 @@
 import os, re, subprocess, sys, shutil
-OUT='/work/react5/harmless4-react'
+OUT=os.path.dirname(os.path.abspath(__file__))
 SP='testtools/twistedsupport/_spinner.py'
 RT='testtools/twistedsupport/_runtest.py'
 def make(name, edits, note):
@@ -140,4 +140,36 @@ make('H25',{RT:[('''            d = self._run_user(self.case._run_teardown, self
 make('H26',{RT:[('''        d = defer.maybeDeferred(lambda: function(*args, **kwargs))
         # The caller''','''        d = defer.maybeDeferred(lambda: function(*args, **kwargs))
         # (what follows: the caller''')]},'comment in _run_user')
+OLD_SAVE = """        available_signals = [
+            getattr(signal, name, None) for name in self._PRESERVED_SIGNALS
+        ]
+        self._saved_signals = [
+            (sig, signal.getsignal(sig)) for sig in available_signals if sig
+        ]"""
+make('H27',{SP:[(OLD_SAVE,"""        saved = []
+        for name in self._PRESERVED_SIGNALS:
+            try:
+                sig = getattr(signal, name)
+            except AttributeError:
+                continue
+            if sig:
+                saved.append((sig, signal.getsignal(sig)))
+        self._saved_signals = saved""")]},'_save_signals as an explicit loop with try/except AttributeError (= harmless/14.diff)')
+make('H28',{SP:[(OLD_SAVE,"""        self._saved_signals = [
+            (sig, signal.getsignal(sig))
+            for sig in (getattr(signal, name, None) for name in self._PRESERVED_SIGNALS)
+            if sig is not None
+        ]""")]},'_save_signals as one comprehension over a generator, filter `is not None`')
+make('H29',{SP:[(OLD_SAVE,"""        self._saved_signals = []
+        for name in self._PRESERVED_SIGNALS:
+            sig = getattr(signal, name, None)
+            if sig is None:
+                continue
+            self._saved_signals.append((sig, signal.getsignal(sig)))""")]},'_save_signals as a loop appending to the fresh attribute, `if sig is None: continue`')
+make('H30',{SP:[(OLD_SAVE,"""        found = []
+        for name in self._PRESERVED_SIGNALS:
+            number = getattr(signal, name, None)
+            if number:
+                found.append((number, signal.getsignal(number)))
+        self._saved_signals = found""")]},'_save_signals as a loop with getattr default and `if number:`')
 print(len([f for f in os.listdir(OUT) if f.endswith('.diff')]), 'patches')
